@@ -27,6 +27,27 @@ theorem FEnter.lower_of_denotes (e : FEnter) (ttl : Option Nat) (h : DenotesOpt 
     e.lower = some (.enter e.t e.th e.key ttl e.wait) := by
   simp [FEnter.lower, DenotesOpt.lower_eq h]
 
+/-- a call, with arguments `args`, of a function decorated with `@locked(ttl=sp)` / `@cache.locked(ttl=sp)`: the ttl may be
+a callable of the call's arguments (`Ttl.Spelling`) -/
+structure FCall where
+  t : Nat
+  th : Nat
+  key : Nat
+  ttl : Option Spelling
+  args : Nat
+  wait : Bool
+
+/-- `_ttl = ttl_to_seconds(ttl, *args, **kwargs, with_callable=True)` in `_wrap`, i.e. on EVERY call, with the arguments of
+that call; `none` = ValueError -/
+def FCall.lower (c : FCall) : Option Act :=
+  match c.ttl with
+  | none => some (.enter c.t c.th c.key none c.wait)
+  | some sp => (sp.ticks c.args 0).map fun d => .enter c.t c.th c.key (some d) c.wait
+
+theorem FCall.lower_callable (c : FCall) (f : Nat → Nat → Plain) (d : Nat) (hs : c.ttl = some (.callable f))
+    (hd : Denotes (f c.args 0) d) : c.lower = some (.enter c.t c.th c.key (some d) c.wait) := by
+  simp [FCall.lower, hs, Spelling.ticks, hd.ticks_eq]
+
 /-- the seeded defect as a lowering: a timedelta loses its sub-second part (`days * 86400 + seconds`) -/
 def truncDelta (d : TDelta) : Nat := 8 * (86400 * d.days + d.seconds)
 
